@@ -93,9 +93,10 @@ TABLE = {
     },
     "C04": {
         "mods": ["contracts.c04_format"], "keys": ["SQLModel._indent_and_sep_terms"],
+        "groups_extra": [(["contracts.glue"], ["SQLModel.select_rows_to_near_sql", "SQLModel.project_to_near_sql", "SQLModel.rename_to_near_sql", "SQLModel.map_columns_to_near_sql", "SQLModel.order_to_near_sql"])],
         "explanation": ("hybrid: PROVED (pyvc) -- SQLModel._indent_and_sep_terms, the routine that lays out every SELECT / GROUP BY / ORDER BY term list: for every option setting (indent text, leading or "
                         "trailing commas, explicit or default options) the result has exactly one line per term and line i is term i with indent and separator decoration only -- options never drop, repeat "
-                        "or reorder a term (this also backs the contract assumed for it in the C09 / C18 / C27 text obligations). NOT under contract: WITH vs nested sub-queries, annotations, CTE elimination, "
+                        "or reorder a term (this also backs the contract assumed for it in the C09 / C18 / C27 text obligations); the key under which CTE elimination (use_cte_elim) may share a step's query is an injective function of the NODE ITSELF, printed with its sources, for the select_rows / project / rename / map_columns / order_rows translations -- two different sub-pipelines can never share a CTE through these steps. NOT under contract: WITH vs nested sub-queries, annotations, CTE elimination, "
                         "the extend-merge optimisation. BOUNDED -- every option combination x the enumerated corpus must return the same table as the default options on SQLite (PostgreSQL text on the surrogate)"),
         "assumptions": ["strings uninterpreted: + cancellative concatenation, ' ' * k and len(str) uninterpreted"],
     },
